@@ -48,6 +48,7 @@ func c03Gen(rt *rapid.T) sPlan {
 		}
 		p.Batches = append(p.Batches, sb2)
 	}
+	p.Prelude = rapid.IntRange(0, 2).Draw(rt, "prelude") == 0
 	return p
 }
 
@@ -200,6 +201,9 @@ func c03Run(t *testing.T, st *vstat.Stats, p sPlan) *viol {
 	}
 	if len(p.Batches) > 1 {
 		st.Class("second-batch-reusing-message-ids")
+	}
+	if obs.Prelude != nil {
+		st.Class("same-tasks-signed-in-the-earlier-round-first")
 	}
 	if nb > 0 {
 		st.Class("has-baked-range")
